@@ -16,7 +16,7 @@ KNOWN_FILE = os.path.join(VERIF, 'known_findings.json')
 
 
 def load_known() -> list[dict]:
-    """known_findings.json plus known_findings.d/*.json (one file per property)."""
+    """known_findings.json plus known_findings.d/*.json (merged into known_findings.json at the end of the session) (one file per property)."""
     out = []
     with open(KNOWN_FILE) as f:
         out += json.load(f)['findings']
